@@ -790,6 +790,16 @@ func c47exec(t *testing.T, r *vk.Run, env *c47envT, f c47family, ch *vk.Chooser)
 	if ch.Skipped {
 		return
 	}
+	if tr := ch.Trace(); len(tr) < 2 {
+		// shorter than ExploreSharded's shard depth: every shard walks it, one shard counts it
+		h := 17
+		for _, v := range tr {
+			h = h*31 + v + 1
+		}
+		if !r.Mine(h) {
+			return
+		}
+	}
 	id := ch.CaseID(f.name)
 	if !r.Case(id) {
 		return
